@@ -72,9 +72,9 @@ def preventsRemoval (h : History) (id : Id) : Bool :=
 def nsInvId : Id := { ns := "", name := invNs, group := "", kind := "Namespace" }
 
 /-- objects annotated with this inventory that the stored inventory does not list -/
-def orphans (s : Snap) (everInv : Bool) : List Id :=
+def orphans (s : Snap) (nsEverListed : Bool) : List Id :=
   (s.objs.filter (fun o => o.owner = invId &&
-      !(o.id = nsInvId && s.inv.isNone && !everInv) &&
+      !(o.id = nsInvId && !nsEverListed) &&
       (match s.inv with | none => true | some l => o.id ∉ l))).map (·.id)
 
 /-- all snapshots of the history in order, with the run index -/
@@ -90,7 +90,9 @@ def checkC01 (h : History) (obs : List RunObs) : Option String :=
       | some _ => acc
       | none =>
         let orph := orphans ks.2 acc.1
-        let ever := acc.1 || ks.2.inv.isSome
+        -- the inventory namespace is exempt until the stored inventory has listed it once ("while the inventory is first
+        -- being created": it is created, annotated, before the inventory object that will list it can be written)
+        let ever := acc.1 || (match ks.2.inv with | some l => decide (nsInvId ∈ l) | none => false)
         if orph.isEmpty then (ever, none)
         else
           -- classify for the known-findings file
@@ -270,10 +272,11 @@ def checkC05 (h : History) (obs : List RunObs) : Option String :=
 
 /-! ### C11 — invalid objects isolated -/
 
-def generatedInvalid (r : Run) : List Id :=
+def generatedInvalid (r : Run) (pruneIds : List Id) : List Id :=
   -- invalid by construction of the generator: field errors, and the named families of bad references
+  -- (a reference is external if it is neither in the apply set nor among the tracked objects that still exist)
   (r.objs.filter (fun m => fieldInvalid m || m.depsRaw ≠ "" ||
-      m.deps.any (fun d => d ∉ r.objs.map (·.id)) || dedup m.deps ≠ m.deps ||
+      (m.deps ++ (match m.mutFrom with | some x => [x] | none => [])).any (fun d => d ∉ r.objs.map (·.id) && d ∉ pruneIds) || dedup m.deps ≠ m.deps ||
       (m.id.name = "x" || m.id.name = "y") && m.deps.any (fun d => d.name = "x" || d.name = "y"))).map (·.id)
 
 def checkC11 (h : History) (obs : List RunObs) : Option String :=
@@ -281,10 +284,10 @@ def checkC11 (h : History) (obs : List RunObs) : Option String :=
     match obs[k]?, h.runs[k]? with
     | some o, some r =>
       if r.destroy then none else
-      let bad := generatedInvalid r
-      if bad.isEmpty then none else
       let s0 := startSnap h obs k
       let prevInv := s0.inv.getD []
+      let bad := generatedInvalid r (prevInv.filter (fun i => (snapFind s0 i).isSome))
+      if bad.isEmpty then none else
       let named := o.events.flatMap fun e => match e with | .validation ids _ => ids | _ => []
       if !r.opts.skipInvalid then
         if !o.muts.isEmpty then some s!"C11 run {k}: exit-early validation but a mutating request was made"
